@@ -60,7 +60,9 @@ type DB struct {
 	mergedRoots      map[string][]byte
 	unmergeableRoots int
 	tombstoned       bool
-	kvVersion        int // crdt.Root.KVVersion, root format version (0, 1)
+	unstored         bool  // nodes are flushed but the version that refers to them is not stored
+	flushErr         error // a flush failed part-way: the tree can't be committed any more
+	kvVersion        int   // crdt.Root.KVVersion, root format version (0, 1)
 }
 
 // Config defines how values are stored and (un)marshaled.
@@ -479,6 +481,9 @@ func loadRoot(ctx context.Context, persist mast.Persist, key string) (*crdt.Root
 
 // Commit ensures any Set() entries become accessible on subsequent Open()s.
 func (s *DB) Commit(ctx context.Context) (*string, error) {
+	if s.flushErr != nil {
+		return nil, fmt.Errorf("an earlier commit failed while storing nodes, reopen to try again: %w", s.flushErr)
+	}
 	if !s.IsDirty() && !s.tombstoned && (s.crdt.Source != nil && len(s.crdt.MergeSources) <= 1 ||
 		s.crdt.Source == nil && len(s.crdt.MergeSources) == 0) {
 		return s.crdt.Source, nil
@@ -488,6 +493,9 @@ func (s *DB) Commit(ctx context.Context) (*string, error) {
 	}
 	root, err := s.crdt.MakeRoot(ctx)
 	if err != nil {
+		// mast marks a node as stored when its store is queued, so after a
+		// failed flush this tree can't tell which nodes are missing.
+		s.flushErr = err
 		return nil, fmt.Errorf("mast makeroot: %w", err)
 	}
 	root.KVVersion = s.kvVersion
@@ -513,6 +521,9 @@ func (s *DB) Commit(ctx context.Context) (*string, error) {
 	name := fmt.Sprintf("%s%06s_%s", s.cfg.CustomRootPrefix, crTime, hash)
 	err = s.root.Store(ctx, name, rootBytes)
 	if err != nil {
+		// The nodes are flushed, so the tree no longer looks dirty. Remember
+		// that its version was not stored, or a retry would report success.
+		s.unstored = true
 		return nil, fmt.Errorf("store: %w", err)
 	}
 	s.moveMergedRoots(ctx, name, s.mergedRoots)
@@ -520,6 +531,7 @@ func (s *DB) Commit(ctx context.Context) (*string, error) {
 	s.crdt.MergeSources = []string{name}
 	s.crdt.Source = &name
 	s.tombstoned = false
+	s.unstored = false
 	return &name, nil
 }
 
@@ -762,7 +774,7 @@ func (s *DB) getHistoricRootsAndNodes(
 
 // IsDirty returns true if there are entries in memory that haven't been Commit()ted.
 func (s DB) IsDirty() bool {
-	return s.tombstoned || s.crdt.IsDirty()
+	return s.tombstoned || s.unstored || s.crdt.IsDirty()
 }
 
 // Set puts a new value in memory. If the database already has a value later than "when", this does
